@@ -60,6 +60,7 @@ type c14Scenario struct {
 	Name    string
 	Threads []string // thread kinds, e.g. "D1", "D2x2", "R1", "R2", "L1", "L2"
 	Bound   int
+	Try     bool // also try to run threads that the hook-derived model of the in-memory lock says are blocked (the real lock decides)
 }
 
 var c14Seq int
@@ -79,6 +80,10 @@ func runC14Once(sc c14Scenario, r *xrun) []Violation {
 	}
 	file := bwu.StatusFileName()
 	s := newScheduler()
+	if sc.Try {
+		s.tryBlocked = true
+		s.extQuiet = 40 * time.Millisecond
+	}
 	var mu sync.Mutex
 	abs := c14Abs{State: 0, WorkType: "wt", Detail: "Unit Created", StdoutSize: 0}
 	history := []c14Abs{abs}
@@ -212,6 +217,21 @@ func runC14Once(sc c14Scenario, r *xrun) []Violation {
 		kind := "lost-update"
 		out.violate("status:"+kind, "final record %+v, fold of all updates %+v (trace %v)", got, want, res.trace)
 	}
+	// what the daemon's goroutines wrote went through the unit's in-memory record: at rest it holds every one of
+	// their updates (fields owned by other processes may lag until the next Load)
+	mem := absOf(bwu.Status())
+	for _, spec := range sc.Threads {
+		switch {
+		case strings.HasPrefix(spec, "D1"), strings.HasPrefix(spec, "D3"):
+			if mem.State != want.State {
+				out.violate("status:memory-lost-daemon-update", "at rest the unit's in-memory record has State %d, the daemon's own updates add up to %d (file: %+v; trace %v)", mem.State, want.State, absOf(fin), res.trace)
+			}
+		case strings.HasPrefix(spec, "D2"):
+			if mem.WorkType != want.WorkType {
+				out.violate("status:memory-lost-daemon-update", "at rest the unit's in-memory record has WorkType %q, the daemon's own updates add up to %q (file: %+v; trace %v)", mem.WorkType, want.WorkType, absOf(fin), res.trace)
+			}
+		}
+	}
 	for _, l := range loads {
 		if l.err != nil {
 			out.violate("status:reader-saw-partial-record", "%s: load failed: %v", l.thread, l.err)
@@ -233,22 +253,27 @@ func runC14Once(sc c14Scenario, r *xrun) []Violation {
 func runC14(w *W) {
 	b := 2
 	scs := []c14Scenario{
-		{"two processes append, one loads", []string{"R1", "R2", "L1"}, b},
-		{"daemon goroutine + runner + stdout writer", []string{"D2", "R1", "R2"}, b},
-		{"two daemon goroutines + runner", []string{"D1", "D2", "R1"}, b},
-		{"daemon writer, daemon reader, runner", []string{"D2", "L2", "R1"}, b},
-		{"two updates each", []string{"D2x2", "R1x2", "L1"}, b},
-		{"runner twice, stdout twice", []string{"R1x2", "R2x2"}, b},
-		{"cancel-style update (size unchanged) + stdout writer twice", []string{"D3", "R2x2"}, b},
-		{"cancel-style update + stdout writer + daemon reader", []string{"D3", "R2", "L2"}, b},
-		{"cancel-style update + daemon writer + stdout writer", []string{"D3", "D2", "R2"}, b},
+		{"two processes append, one loads", []string{"R1", "R2", "L1"}, b, false},
+		{"daemon goroutine + runner + stdout writer", []string{"D2", "R1", "R2"}, b, false},
+		{"two daemon goroutines + runner", []string{"D1", "D2", "R1"}, b, false},
+		{"daemon writer, daemon reader, runner", []string{"D2", "L2", "R1"}, b, false},
+		{"two updates each", []string{"D2x2", "R1x2", "L1"}, b, false},
+		{"runner twice, stdout twice", []string{"R1x2", "R2x2"}, b, false},
+		{"daemon writer twice, daemon reader twice", []string{"D2x2", "L2x2"}, b, false},
+		{"daemon writer, daemon reader; the real in-memory lock decides", []string{"D2", "L2"}, b, true},
+		{"cancel-style update, daemon reader; the real in-memory lock decides", []string{"D3", "L2"}, b, true},
+		{"two daemon writers; the real in-memory lock decides", []string{"D1", "D2"}, b, true},
+		{"daemon writers, daemon reader", []string{"D1", "D2", "L2"}, b, false},
+		{"cancel-style update (size unchanged) + stdout writer twice", []string{"D3", "R2x2"}, b, false},
+		{"cancel-style update + stdout writer + daemon reader", []string{"D3", "R2", "L2"}, b, false},
+		{"cancel-style update + daemon writer + stdout writer", []string{"D3", "D2", "R2"}, b, false},
 	}
 	if w.Thorough() {
 		scs = append(scs,
-			c14Scenario{"four threads", []string{"D1", "D2", "R1", "R2"}, 3},
-			c14Scenario{"four threads with readers", []string{"D2", "R1", "L1", "L2"}, 3},
-			c14Scenario{"three writers twice", []string{"D2x2", "R1x2", "R2x2"}, 3},
-			c14Scenario{"five threads", []string{"D1", "D2", "R1", "R2", "L1"}, 2},
+			c14Scenario{"four threads", []string{"D1", "D2", "R1", "R2"}, 3, false},
+			c14Scenario{"four threads with readers", []string{"D2", "R1", "L1", "L2"}, 3, false},
+			c14Scenario{"three writers twice", []string{"D2x2", "R1x2", "R2x2"}, 3, false},
+			c14Scenario{"five threads", []string{"D1", "D2", "R1", "R2", "L1"}, 2, false},
 		)
 	}
 	for _, sc := range scs {
@@ -265,8 +290,8 @@ func init() {
 		ID:        "C14",
 		Level:     "model_checking",
 		Technique: "iterative context-bounding DFS of a cooperative scheduler over hook points in the real Save/Load/UpdateFullStatus/STDoutWriter code (lock file and in-memory lock modelled from the points; real files in tmpfs); final record and every load compared with the fold of the committed updates",
-		Rule: "threads: daemon goroutines sharing one BaseWorkUnit (D1 increments State, D2 appends to WorkType, D3 = UpdateBasicStatus(Canceled, size unchanged), L2 = Load+Status) and other processes with their own StatusFileData (R1 appends to Detail, R2 = STDoutWriter.Write, L1 = Load); 3 threads with 1-2 operations each, every schedule with <=2 preemptions (thorough: 4-5 threads, <=3); switches at blocked/finished threads are free. " +
-			"A case is one scenario part; non-trivial = more than one schedule. Oracle: no dead-lock, no failed update, final record = fold of all updates (each writer owns a field), every load parses and equals a record committed while it ran.",
+		Rule: "threads: daemon goroutines sharing one BaseWorkUnit (D1 increments State, D2 appends to WorkType, D3 = UpdateBasicStatus(Canceled, size unchanged), L2 = Load+Status) and other processes with their own StatusFileData (R1 appends to Detail, R2 = STDoutWriter.Write, L1 = Load); 3 threads with 1-2 operations each, every schedule with <=2 preemptions (thorough: 4-5 threads, <=3); switches at blocked/finished threads are free; in three two-thread scenarios a thread that the hook-derived model of the in-memory lock says is blocked may be resumed anyway (one deviation) so that the real lock, not the position of the hook points, decides who waits. " +
+			"A case is one scenario part; non-trivial = more than one schedule. Oracle: no dead-lock, no failed update, final record = fold of all updates (each writer owns a field), every load parses and equals a record committed while it ran, at rest the unit's in-memory record holds every update made by the daemon's own goroutines.",
 		Assumptions: []string{"other processes are represented by goroutines with their own StatusFileData: the advisory lock (flock on a fresh descriptor of <file>.lock) excludes them exactly like separate processes", "scheduling points are the hook points; code between two points runs atomically"},
 		Run:         runC14,
 		CaseTimeout: 60 * time.Second,
